@@ -23,6 +23,7 @@ import (
 	"go/types"
 	"hash"
 	"log"
+	"sort"
 	"strconv"
 	"strings"
 
@@ -244,25 +245,36 @@ func namedLikeTypeArgString(obj types.Object, targs *types.TypeList) string {
 }
 
 func typeArgString(t types.Type) string {
+	return TypeArgString(t, func(t *types.Named) string {
+		return namedLikeTypeArgString(t.Obj(), t.TypeArgs())
+	})
+}
+
+// TypeArgString formats a type argument for use in a symbol name. Named types
+// are formatted by named, which must tell same-named types of different scopes
+// apart; unnamed types are written structurally, so that a function-local type
+// nested in a struct, function or interface type keeps its distinguishing name.
+func TypeArgString(t types.Type, named func(*types.Named) string) string {
+	str := func(t types.Type) string { return TypeArgString(t, named) }
 	switch t := t.(type) {
 	case *types.Alias:
-		return typeArgString(types.Unalias(t))
+		return str(types.Unalias(t))
 	case *types.Basic:
 		return t.String()
 	case *types.Named:
-		return namedLikeTypeArgString(t.Obj(), t.TypeArgs())
+		return named(t)
 	case *types.Pointer:
-		return "*" + typeArgString(t.Elem())
+		return "*" + str(t.Elem())
 	case *types.Slice:
-		return "[]" + typeArgString(t.Elem())
+		return "[]" + str(t.Elem())
 	case *types.Array:
-		return fmt.Sprintf("[%v]%s", t.Len(), typeArgString(t.Elem()))
+		return fmt.Sprintf("[%v]%s", t.Len(), str(t.Elem()))
 	case *types.Map:
-		return fmt.Sprintf("map[%s]%s", typeArgString(t.Key()), typeArgString(t.Elem()))
+		return fmt.Sprintf("map[%s]%s", str(t.Key()), str(t.Elem()))
 	case *types.Chan:
 		_, s := ChanDir(t.Dir())
 		elem := t.Elem()
-		elemStr := typeArgString(elem)
+		elemStr := str(elem)
 		// Keep canonical channel formatting for nested directional channels.
 		// Example: chan (<-chan int), not "chan <-chan int" (ambiguous).
 		if t.Dir() == types.SendRecv {
@@ -271,11 +283,55 @@ func typeArgString(t types.Type) string {
 			}
 		}
 		return fmt.Sprintf("%s %s", s, elemStr)
-	default:
-		// Fallback for rare type arguments (e.g. signature/interface/struct).
-		// Collisions are mainly caused by local named types, handled above.
-		return types.TypeString(t, PathOf)
+	case *types.Struct:
+		fields := make([]string, t.NumFields())
+		for i := range fields {
+			f := t.Field(i)
+			fields[i] = str(f.Type())
+			if !f.Embedded() {
+				fields[i] = f.Name() + " " + fields[i]
+			}
+			if tag := t.Tag(i); tag != "" {
+				fields[i] += " " + strconv.Quote(tag)
+			}
+		}
+		return "struct{" + strings.Join(fields, "; ") + "}"
+	case *types.Tuple:
+		vars := make([]string, t.Len())
+		for i := range vars {
+			vars[i] = str(t.At(i).Type())
+		}
+		return "(" + strings.Join(vars, ", ") + ")"
+	case *types.Signature:
+		n := t.Params().Len()
+		params := make([]string, n)
+		for i := range params {
+			params[i] = str(t.Params().At(i).Type())
+			if sl, ok := t.Params().At(i).Type().(*types.Slice); ok && t.Variadic() && i == n-1 {
+				params[i] = "..." + str(sl.Elem())
+			}
+		}
+		sig := "func(" + strings.Join(params, ", ") + ")"
+		switch t.Results().Len() {
+		case 0:
+			return sig
+		case 1:
+			return sig + " " + str(t.Results().At(0).Type())
+		}
+		return sig + " " + str(t.Results())
+	case *types.Interface:
+		if !t.IsMethodSet() {
+			break
+		}
+		methods := make([]string, t.NumMethods())
+		for i := range methods {
+			m := t.Method(i)
+			methods[i] = m.Name() + strings.TrimPrefix(str(m.Type()), "func")
+		}
+		sort.Strings(methods)
+		return "interface{" + strings.Join(methods, "; ") + "}"
 	}
+	return types.TypeString(t, PathOf)
 }
 
 const (
